@@ -57,8 +57,9 @@ def setup_worker(ctx):
 
 
 def gen_defn(rng, tier, cpp):
-    return gen.program(rng, n_state=(3, 5) if cpp else (3, 6), n_control=(0, 3), n_calib=(0, 2), n_sensor=(1, 2),
-                       n_reading=(2, 3), depth=2 if cpp else 3, n_shared=(2, 4), integrator_bias=0.3)
+    deep = (not cpp) and (tier == "thorough" or rng.random() < 0.4)
+    return gen.program(rng, n_state=(3, 5) if (cpp or tier == "quick") else (3, 6), n_control=(0, 3), n_calib=(0, 2),
+                       n_sensor=(1, 2), n_reading=(2, 3), depth=3 if deep else 2, n_shared=(2, 4), integrator_bias=0.3)
 
 
 # ---------------------------------------------------------------- text check
